@@ -365,48 +365,47 @@ func injectFile(operations []*HTTPOperation, file graphql.Upload, paths []string
 			return fmt.Errorf("operation index %d out of bound %d", idx, len(operations))
 		}
 
-		variables := operations[idx].Variables
-
-		// step through the path to find the file variable
+		// step through the path to find the file variable: every part but the last names an
+		// object key or a list index to descend into, the last one names the null to replace
+		var current interface{} = operations[idx].Variables
 		for i := 1; i < len(parts); i++ {
-			val, ok := variables[parts[i]]
-			if !ok {
-				return fmt.Errorf("key not found in variables: %s", parts[i])
-			}
-			switch v := val.(type) {
-			// if the path part is a map, then keep stepping through it
-			case map[string]interface{}:
-				variables = v
-			// if we hit nil, then we have found the variable to replace with the file and have hit the end of parts
-			case nil:
-				variables[parts[i]] = file
-			// if we find a list then find the the variable to replace at the parts index (supports: [Upload!]!)
-			case []interface{}:
-				// make sure the path contains another part before looking for an index
-				if i+1 >= len(parts) {
-					return fmt.Errorf("invalid number of parts in path: " + path)
-				}
+			isTarget := i == len(parts)-1
 
-				// the next part in the path must be an index (ex: the "2" in: variables.input.files.2)
-				index, err := strconv.Atoi(parts[i+1])
+			switch container := current.(type) {
+			// if the container is a map, the part is one of its keys
+			case map[string]interface{}:
+				val, ok := container[parts[i]]
+				if !ok {
+					return fmt.Errorf("key not found in variables: %s", parts[i])
+				}
+				if isTarget {
+					if val != nil {
+						return fmt.Errorf("expected nil value, got %v", val) // possibly duplicate path or path to non-null variable
+					}
+					container[parts[i]] = file
+				}
+				current = val
+			// if the container is a list, the part must be an index (ex: the "2" in: variables.input.files.2)
+			case []interface{}:
+				index, err := strconv.Atoi(parts[i])
 				if err != nil {
 					return fmt.Errorf("expected numeric index: " + err.Error())
 				}
 
 				// index might not be within the bounds
-				if index < 0 || index >= len(v) {
-					return fmt.Errorf("file index %d out of bound %d", index, len(v))
+				if index < 0 || index >= len(container) {
+					return fmt.Errorf("file index %d out of bound %d", index, len(container))
 				}
-				fileVal := v[index]
-				if fileVal != nil {
-					return fmt.Errorf("expected nil value, got %v", fileVal)
+				if isTarget {
+					if container[index] != nil {
+						return fmt.Errorf("expected nil value, got %v", container[index])
+					}
+					container[index] = file
 				}
-				v[index] = file
-
-				// skip the final iteration through parts (skips the index definition, ex: the "2" in: variables.input.files.2)
-				i++
+				current = container[index]
+			// a null or a scalar has nothing inside it to point at
 			default:
-				return fmt.Errorf("expected nil value, got %v", v) // possibly duplicate path or path to non-null variable
+				return fmt.Errorf("invalid path %s: %s is not inside an object or a list", path, parts[i])
 			}
 		}
 	}
